@@ -124,7 +124,67 @@ fn scan_states<D: Dec>(t: &mut Tally, new_name: &'static str, adv_name: &'static
     }
 }
 
+/// thorough: more than 2^32 operations on ONE object of each stage (a 32-bit counter that is incremented with `+= 1`
+/// panics here in a build with overflow checks); one thread per stage, started first and joined last
+fn long_soaks() -> Vec<std::thread::JoinHandle<(&'static str, u64, Result<(), String>)>> {
+    const N: u64 = (1 << 32) + 4096;
+    fn typing<D: Dec>() -> Vec<u8> {
+        let r = ref_for(D::SET);
+        let ty = Typist::new(D::SET, &r);
+        let mut rng = Rng::fork(7, D::SET as u64);
+        ty.typing(&mut rng, 4000)
+    }
+    fn bytes<D: Dec>(name: &'static str) -> (&'static str, u64, Result<(), String>) {
+        let per = typing::<D>();
+        let r = guarded(|| {
+            let mut d = D::fresh();
+            let mut n = 0u64;
+            while n < N {
+                for b in per.iter() {
+                    let _ = std::hint::black_box(d.advance_state(*b));
+                }
+                n += per.len() as u64;
+            }
+        });
+        (name, N, r)
+    }
+    vec![
+        std::thread::spawn(|| bytes::<ScancodeSet1>("ScancodeSet1::advance_state")),
+        std::thread::spawn(|| bytes::<ScancodeSet2>("ScancodeSet2::advance_state")),
+        std::thread::spawn(|| {
+            let r = guarded(|| {
+                let mut d = crate::scan::fresh_ps2();
+                let f = [crate::model::encode_frame(0x1C), crate::model::encode_frame(0xF0), 0x7FFu16, 0x000];
+                let mut n = 0u64;
+                while n < N {
+                    let w = f[(n / 11 % 4) as usize];
+                    for i in 0..11 {
+                        let _ = std::hint::black_box(d.add_bit((w >> i) & 1 == 1));
+                    }
+                    n += 11;
+                }
+            });
+            ("Ps2Decoder::add_bit", N, r)
+        }),
+        std::thread::spawn(|| {
+            let r = guarded(|| {
+                let mut dec = EventDecoder::new(crate::layouts::AdvLayout, HandleControl::MapLettersToUnicode);
+                let keys = [KeyCode::A, KeyCode::LShift, KeyCode::B, KeyCode::CapsLock, KeyCode::Numpad7, KeyCode::RAltGr, KeyCode::F1];
+                let mut n = 0u64;
+                while n < N {
+                    let k = keys[(n % 7) as usize];
+                    let st = if n % 3 == 2 { KeyState::Up } else { KeyState::Down };
+                    let _ = std::hint::black_box(dec.process_keyevent(KeyEvent::new(k, st)));
+                    n += 1;
+                }
+            });
+            ("EventDecoder::process_keyevent", N, r)
+        }),
+    ]
+}
+
 pub fn run(rep: &mut Report) {
+    let long = if rep.thorough() && !ctor_overridden() { long_soaks() } else { Vec::new() };
     let mut t = Tally::new();
     let uni = universe();
 
@@ -499,6 +559,15 @@ pub fn run(rep: &mut Report) {
     }
     rep.count("hostile_mixture_wire_operations", hostile_ops_n);
 
+    for h in long {
+        if let Ok((name, n, r)) = h.join() {
+            t.add(name, n);
+            rep.count(&format!("operations_on_one_object_in_the_2^32_soak_of_{}", name), n);
+            if let Err(p) = r {
+                t.panic(name, "more than 2^32 operations on one object".into(), &p, J::obj().with("kind", J::s("soak-2^32")).with("operation", J::s(name)));
+            }
+        }
+    }
     // ---------------------------------------------------------------- verdict
     let mut total_calls = 0u64;
     let mut calls_json = J::obj();
